@@ -175,15 +175,20 @@ def op_str(op) -> str:
     return op[0] + (op[1] if len(op) > 1 else '')
 
 
-def ops_for(facts: dict, names) -> list:
+def ops_for(facts: dict, names, newest=None) -> list:
+    """newest=k: reinstall/clean only the k highest-numbered runs (the
+    alphabet of the second search phase, which starts from many runs)."""
     ops = [('I',)] + [('N', n) for n in names] + [('U',)]
     targets = []
     if facts['exists']:
         if facts['base_is_run']:
             targets = ['']
         else:
+            nums = sorted(facts['numbered'])
+            if newest is not None:
+                nums = nums[-newest:]
             targets = (
-                [facts['numbered'][k] for k in sorted(facts['numbered'])]
+                [facts['numbered'][k] for k in nums]
                 + sorted(facts['named']))
     ops += [('R', t) for t in targets]
     ops += [('C', t) for t in targets]
@@ -299,7 +304,14 @@ def judge(op, pre: dict, post: dict, res: dict, model: dict, crd: str):
                         f'{runN_before}-before',
                         f'{name}: installed into {rel}, which already '
                         'existed'))
-                if k <= model['hw']:
+                if fpre['numbered'] and k <= max(fpre['numbered']):
+                    bad.append((
+                        f'run-number-not-above-existing-runs:runN-'
+                        f'{runN_before}-before',
+                        f'{name}: handed out run{k} although '
+                        f'run{max(fpre["numbered"])} exists (runs present '
+                        f'before: {sorted(fpre["numbered"])})'))
+                elif k <= model['hw']:
                     bad.append((
                         f'run-number-reused:runN-{runN_before}-before',
                         f'{name}: handed out run{k} again (numbers handed '
@@ -442,6 +454,9 @@ def _work(job):
 
 def run(ctx: Ctx) -> Result:
     depth = ctx.pick(6, 10)
+    depth2 = ctx.pick(3, 4)     # phase 2 (from twelve runs)
+    home_env = os.environ['HOME']
+    frontier_phase1 = 0
     names = ctx.pick(['a', 'b'], ['a', 'run2b'])
     base = ctx.scratch / 'c48'
     if base.exists():
@@ -469,10 +484,44 @@ def run(ctx: Ctx) -> Result:
     max_handed = 0
     jid = 0
     per_level = []
-    for level in range(depth):
+    ph = {'newest': None, 'names': names}
+    for level in range(depth + 1 + depth2):
+        if level == depth:
+            # ---- phase 2: start again from a non-initial state (twelve
+            # numbered runs, reached through real installs) with a bounded
+            # alphabet: two-digit run numbers, runN absent, gaps
+            sid = 0
+            for _ in range(12):
+                r = _work((str(base), [(jid, sid, info[sid]['model'],
+                                        ('I',))]))[0]
+                os.environ['HOME'] = home_env
+                jid += 1
+                transitions += 1
+                hist = info[sid]['hist'] + ['I']
+                for sig, what in r['bad']:
+                    vios.append(Violation(
+                        sig, f'history {" ".join(hist)}: {what}',
+                        {'history': hist, 'names': names}))
+                succ = base / 'succ' / str(r['jid'])
+                if r['key'] in states:
+                    shutil.rmtree(succ, ignore_errors=True)
+                    sid = states[r['key']]
+                else:
+                    sid2 = len(states)
+                    states[r['key']] = sid2
+                    os.rename(succ, base / 'states' / str(sid2))
+                    info[sid2] = {'model': r['model'], 'facts': r['facts'],
+                                  'hist': hist}
+                    sid = sid2
+                max_handed = max(max_handed, r['model']['hw'])
+            frontier_phase1 = len(frontier)
+            frontier = [sid]
+            ph = {'newest': 3, 'names': names[:1]}
+            continue
         items = []
         for sid in frontier:
-            for op in ops_for(info[sid]['facts'], names):
+            for op in ops_for(info[sid]['facts'], ph['names'],
+                              ph['newest']):
                 items.append((jid, sid, info[sid]['model'], op))
                 jid += 1
         if not items:
@@ -553,7 +602,12 @@ def run(ctx: Ctx) -> Result:
         'operations': stats,
         'highest_run_number_handed_out': max_handed,
         'seams_exercised': seams,
-        'unexplored_frontier_states_at_depth_bound': len(frontier),
+        'phase2': {'start': 'twelve numbered installs (I x 12)',
+                   'depth': depth2,
+                   'alphabet': 'install forms; reinstall/clean of the 3 '
+                               'highest-numbered runs, named runs and runN'},
+        'unexplored_frontier_states_at_depth_bound':
+            frontier_phase1 + len(frontier),
         'samples': [
             {'history': info[s]['hist'],
              'runs_present': sorted(info[s]['facts']['numbered'].values())
@@ -565,6 +619,11 @@ def run(ctx: Ctx) -> Result:
         'exhaustive': True,
     }
     return Result(cov, vios, assumptions=[
+        f'phase 2: all histories of length <= {depth2} from the state '
+        'reached by twelve numbered installs, with reinstall/clean limited '
+        'to the three highest-numbered runs, the named runs and runN, and '
+        'one run name; a new run numbered at or below an existing run is a '
+        'violation of its own (run-number-not-above-existing-runs)',
         f'all histories of length <= {depth} from an empty cylc-run over '
         f'install, install --run-name in {names}, install --no-run-name, '
         'reinstall <every existing run>, clean <every existing run | runN>; '
